@@ -1295,6 +1295,13 @@ func planC12(prop string, seed uint64, tier string, idx int) *Plan {
 		}
 		clients = append(clients, ops)
 	}
+	if idx%7 == 3 && prop == "C12" && k.Store == "dir" {
+		// disk errors (mkdir, rename, remove, create fail for single operations) in the middle of the concurrent workload:
+		// a request that fails must leave every lock it took, whoever comes next must not wait for ever
+		g.p.Profile += " + disk errors"
+		k.FaultRate = g.r.pick(30, 100, 300)
+		k.FaultKinds = [][]string{{"meta"}, {"write", "meta"}, {"read", "write", "meta"}}[g.r.intn(3)]
+	}
 	if idx%5 == 4 {
 		// Close at an arbitrary point with requests in flight (liveness only)
 		g.p.Profile += " (close in flight)"
@@ -1406,6 +1413,15 @@ func planC13(prop string, seed uint64, tier string, idx int) *Plan {
 		// the rate limiter is shared state too: a limit nobody reaches keeps its code on the path of every request
 		p.Knobs.RateLimit = 1000000
 		p.Profile += " + rate limiter"
+	}
+	if idx%4 < 2 && len(p.Clients) > 1 && p.Engine == "conc" {
+		// names that were asked for and do not exist: the store tracks them, and a collection pass finds several
+		// repositories it cannot collect at once
+		g0 := len(p.Repos)
+		p.Repos = append(p.Repos, "ghost/one", "ghost/two", "ghost/three")
+		probe := []Op{{K: "tags", Repo: g0}, {K: "tags", Repo: g0 + 1}, {K: "tags", Repo: g0 + 2}}
+		p.Clients[1] = append(probe, p.Clients[1]...)
+		p.Profile += " + names that do not exist"
 	}
 	return p
 }
